@@ -68,6 +68,9 @@ func buildBase(r *rng, path string, ps int, nfs bool, w *bufio.Writer) {
 		panic(err)
 	}
 	ntx := 1 + r.intn(6)
+	if ps >= 1<<20 {
+		ntx = 1 + r.intn(2)
+	}
 	for t := 0; t < ntx; t++ {
 		tx, _ := db.Begin(true)
 		for i := 0; i < 1+r.intn(30); i++ {
@@ -139,15 +142,24 @@ func openAndObserve(path string, dps int) string {
 func c11Main(args []string) error {
 	c := newCommon("c11")
 	dir := c.fs.String("dir", "/dev/shm", "scratch dir")
+	huge := c.fs.Bool("huge", false, "add one database with the largest supported page size (16 MiB; file of 64 MiB) and a short damage list")
 	full := c.fs.Bool("full", false, "exhaustive single-byte sweep (all 255 replacement values at every position)")
 	c.fs.Parse(args)
 	w, done := openOut(c.out)
 	defer done()
 	r := &rng{s: c.seed}
 	pss := []int{1024, 2048, 4096, 8192, 16384}
-	for id := 0; id < c.n; id++ {
+	ncases := c.n
+	if *huge {
+		ncases++
+	}
+	for id := 0; id < ncases; id++ {
 		cr := r.fork()
 		ps := pss[(id+int(c.seed))%len(pss)]
+		hugeCase := *huge && id == c.n
+		if hugeCase {
+			ps = 16 << 20
+		}
 		dps := 4096
 		base := fmt.Sprintf("%s/c11_%d.base", *dir, id)
 		work := fmt.Sprintf("%s/c11_%d.work", *dir, id)
@@ -186,6 +198,20 @@ func c11Main(args []string) error {
 		h.Write(wouldBe[:56])
 		binary.LittleEndian.PutUint64(wouldBe[56:], h.Sum64())
 		ok := true
+		if hugeCase {
+			// 64 MiB per copy: a short list - first meta damaged (page size must be found through the second), second
+			// damaged, both damaged
+			for _, pv := range [][2]int{{0, 1}, {17, 200}, {50, 3}, {63, 255}} {
+				off := 16 + pv[0]
+				ok = ok && try(fmt.Sprintf("b 0 %d %d", pv[0], pv[1]), func(b []byte) []byte { b[off] = byte(int(b[off]) + pv[1]); return b })
+			}
+			ok = ok && try("b 1 20 9", func(b []byte) []byte { b[ps+16+20] += 9; return b })
+			ok = ok && try("bb 3 1 60 1", func(b []byte) []byte { b[16+3]++; b[ps+16+60]++; return b })
+			fmt.Fprintln(w, "end")
+			w.Flush()
+			os.Remove(work)
+			continue
+		}
 		// single-byte damage, every position of both metas
 		for slot := 0; slot < 2 && ok; slot++ {
 			for pos := 0; pos < 64 && ok; pos++ {
